@@ -14,7 +14,7 @@ class SXFMError(Exception):
     pass
 
 
-LINE = re.compile(r'^(\t*)(:r|:m|:o|:g|:)\s*(.*)$')
+LINE = re.compile(r'^([ \t]*)(:r|:m|:o|:g|:)\s*(.*)$')
 NAMEID = re.compile(r'^(.*)\((.*)\)\s*$')
 
 
@@ -37,11 +37,17 @@ def parse(text):
     nodes = []     # dict(kind, id, depth, card, children)
     stack = []
     root = None
+    indents = []          # stack of indentation widths seen on the current path
     for line in tree_lines:
         mm = LINE.match(line)
         if not mm:
             raise SXFMError('bad tree line %r' % line)
-        depth, kind, rest = len(mm.group(1)), mm.group(2), mm.group(3)
+        width, kind, rest = len(mm.group(1).expandtabs(8)), mm.group(2), mm.group(3)
+        while indents and indents[-1] > width:
+            indents.pop()
+        if not indents or indents[-1] < width:
+            indents.append(width)
+        depth = len(indents) - 1
         node = {'kind': kind, 'depth': depth, 'children': [], 'id': None, 'card': None}
         if kind == ':g':
             cm_ = re.match(r'^\[(\d+),(\d+|\*)\]\s*$', rest)
